@@ -83,7 +83,7 @@ def observe(args):
                 if st['how'] == 'update':
                     sn.update_softmax_options(hard=True)   # (C11: a temperature update must not undo it; keep C03 independent of that)
         win = [max(range(len(a)), key=lambda i: (a[i], -i)) for a in st['alphas']]   # arg-max of the raw coefficients, first on ties
-        ref = G.eval_chain(d, m, expected_chain(d, win), x, torch)
+        ref = G.eval_selection(d, m, win, x, torch)
         o['maxabs'] = float(ref.abs().max())
 
         def do_export():
@@ -95,6 +95,11 @@ def observe(args):
                 o['exc'] = 'EXC:%s:%s' % (type(ex_).__name__, str(ex_)[:160])
                 return None, None
             ye = None
+            # forward hooks on the user's own leaf modules (the export shares the instances): which layers does the export execute?
+            executed, hooks = [], []
+            for n_, mod_ in m.named_modules():
+                if n_ and len(list(mod_.children())) == 0 and type(mod_).__name__ != 'SuperNetCombiner':
+                    hooks.append(mod_.register_forward_hook(lambda m__, i__, o__, n_=n_: executed.append(n_)))
             try:
                 with torch.no_grad():
                     ye = e.eval()(x)
@@ -103,6 +108,12 @@ def observe(args):
             except Exception as ex_:  # noqa
                 o['export_eq_ref'] = False
                 o['exc'] = 'EXC-run:%s:%s' % (type(ex_).__name__, str(ex_)[:160])
+            for h in hooks:
+                h.remove()
+            o['executed'] = sorted(set(executed))
+            o['param_names'] = sorted(n_ for n_, _ in e.named_parameters())
+            exp_mods = {d['names'][l[1]] for l in expected_chain(d, win) if l[0] == 'M'}
+            o['exp_param_names'] = sorted(n_ for n_, _ in m.named_parameters() if n_.rsplit('.', 1)[0] in exp_mods)
             o['seq'] = [list(s) for s in G.graph_sequence(e, d)]
             leaves = [(n, type(mod).__name__) for n, mod in e.named_modules() if n and len(list(mod.children())) == 0]
             o['tree'] = sorted(leaves)
@@ -189,7 +200,7 @@ def check_obs(d, st, o, fails, tag):
     used = sorted({it[1] for it in d['chain'] if it[0] == 'block'})
     fnwin = any(d['blocks'][b]['branches'][win[b]]['fn'] is not None for b in used)
     suffix = ':winning-branch-ends-in-functional-op' if fnwin else ''
-    info = {'desc': strip(d), 'setting': st, 'winners': win, 'n_branches': nbr, 'observed': {k: v for k, v in o.items() if k not in ('seq', 'tree')}, 'tag': tag}
+    info = {'desc': strip(d), 'setting': st, 'winners': win, 'n_branches': nbr, 'observed': {k: v for k, v in o.items() if k not in ('seq', 'tree', 'param_names', 'exp_param_names', 'executed')}, 'tag': tag}
 
     def bad(key, what):
         fails.append((key, dict(info, what=what)))
@@ -216,6 +227,13 @@ def check_obs(d, st, o, fails, tag):
     exp_tree = sorted((n, TYPE_OF[d['types'][d['names'].index(n)]]) for n in exp_names)
     if [tuple(t) for t in o['tree']] != exp_tree:
         bad('exported-tree-wrong' + suffix, 'leaf modules of the exported network %r, expected exactly the fixed layers and the winners\' layers %r' % (o['tree'], exp_tree))
+    if o['param_names'] != o['exp_param_names']:
+        bad('exported-parameters-wrong' + suffix, 'named_parameters of the exported network %r, expected exactly those of the fixed layers and of the winners\' layers %r' % (o['param_names'], o['exp_param_names']))
+    if o['executed'] != exp_names:
+        bad('export-executes-other-layers' + suffix, 'layers executed by exported(x) (forward hooks) %r, expected exactly the fixed layers and the winners\' layers %r' % (o['executed'], exp_names))
+    graph_mods = [t[1] for t in o['seq'] if t[0] == 'M']
+    if any(n not in exp_names for n in graph_mods):
+        bad('exported-graph-has-losing-nodes' + suffix, 'the exported fx graph still calls modules of losing branches: %r' % sorted(set(n for n in graph_mods if n not in exp_names)))
     if o['has_combiner']:
         bad('combiner-left-in-export', 'a SuperNetCombiner is still in the exported module tree')
     if not o['params_untouched'] or not o['seed_untouched']:
@@ -230,7 +248,7 @@ def run(ctx):
     torch = setup_torch()
     built = ctx.build()
     ctx.rule = ('networks from vlib/sn_gen.py: 1..3 SuperNetModules x 2..12 branches (single layer / nn.Sequential / user block ending in a module / user block ending in '
-                'F.relu, +, neg / Identity), blocks invoked once or twice, fixed layers and functional ops before/between/after, optional Flatten+Linear tail; '
+                'F.relu, +, neg / user block with functional ops and method calls (relu, +, neg, *2, .clamp, .abs, .flatten) before / between its layers and optionally a residual around the branch / Identity), blocks invoked once or twice, fixed layers and functional ops before/between/after, optional Flatten+Linear tail; '
                 'coefficients = distinct multiples of 1/16 with the wanted winner on top, 12% with a tie for the maximum, plus the uniform initial ones; hard selection set through '
                 'update_softmax_options(hard=True) or the hard_softmax attribute, temperatures {1,.05,.5,5,20}; ALL winner combinations when every block has <= 4 branches, otherwise '
                 'sampled combinations that always include winners 1, 10, 11 and every branch ending in a functional op; one case = (network, coefficients); '
